@@ -1,12 +1,92 @@
-/- TableOps of the line protocol (extension point). -/
+/- `HashTable` operations of the line protocol (real side: harness/src/table_runner.rs). -/
 import Hb.Driver.Base
+import Hb.Model.Table
 namespace Hb.Driver
 open Hb
 
-/-- Execute one op; `(out, fatal, new value for the other collection)`. -/
-def execTableOp (st : DState) (env : Env) (name : String) (args : List String) (other : Raw) (w : World) :
+/-- Execute one op on target table `w.t`; `(out, fatal, new value for the other collection)`. -/
+def execTableOp (st : DState) (env0 : Env) (name : String) (args : List String) (other : Raw) (w : World) :
     StepOut × Bool × Option Raw :=
-  let _ := (st, env, args, other)
-  ({ ret := s!"bad-op {name}", w := w }, true, none)
+  let cfg := st.cfg
+  let ids := st.ids
+  let env := Table.envFor cfg env0
+  -- caller-supplied hash of key `k`: the plan, without consuming the hash oracle
+  let H (k : Nat) : Nat := (st.plan.get? k).getD (mix3 0x5eed 0 k)
+  let no (x : StepOut × Bool) : StepOut × Bool × Option Raw := (x.1, x.2, none)
+  let elems (l : List Elem) : String := String.intercalate "," (l.map (fmtElem ids))
+  let occ (b : Bool) : String := if b then "occ" else "vac"
+  -- a reference to a zero-sized element carries no address: observations print bucket 0
+  let ix (l : List Nat) : List Nat := if cfg.size == 0 then l.map (fun _ => 0) else l
+  let mk (k id v : String) : Elem := Table.mkElem cfg (nat! k) (nat! id) (nat! v)
+  match name, args with
+  | "insert_unique", [k, id, v] => no <| resOutW (Table.insertUnique cfg env (H (nat! k)) (mk k id v) w) w
+  | "insert", [k, id, _, v] => no <| resOutW (Table.insertUnique cfg env (H (nat! k)) (mk k id v) w) w
+  | "find", [k] => no <| resOut (Table.findElem cfg env (H (nat! k)) (nat! k) w) (fmtOptElem ids) w
+  | "get", [k] => no <| resOut (Table.findElem cfg env (H (nat! k)) (nat! k) w) (fmtOptElem ids) w
+  | "findmut", [k, nv] => no <| resOut (Table.findMut cfg env (H (nat! k)) (nat! k) (nat! nv) w) (fmtOptElem ids) w
+  | "find_entry_remove", [k] =>
+    no <| resOut (Table.findEntryRemove cfg env (H (nat! k)) (nat! k) none w) (fmtOptElem ids) w
+  | "find_entry_remove_drop", [k] =>
+    no <| resOut (Table.findEntryRemove cfg env (H (nat! k)) (nat! k) none w) (fmtOptElem ids) w
+  | "remove", [k] =>
+    no <| resOut (Table.findEntryRemove cfg env (H (nat! k)) (nat! k) none w) (fmtOptElem ids) w
+  | "find_entry_remove_reinsert", [k, id, v] =>
+    no <| resOut (Table.findEntryRemove cfg env (H (nat! k)) (nat! k) (some (mk k id v)) w) (fmtOptElem ids) w
+  | "entry_insert", [k, id, v] =>
+    no <| resOut (Table.entryInsert cfg env (H (nat! k)) (nat! k) (mk k id v) w) occ w
+  | "entry_or_insert", [k, id, v] =>
+    no <| resOut (Table.entryOrInsert cfg env (H (nat! k)) (nat! k) (mk k id v) w) occ w
+  | "entry_and_modify", [k, nv] =>
+    no <| resOut (Table.entryAndModify cfg env (H (nat! k)) (nat! k) (nat! nv) w) occ w
+  | "clear", [] => no <| resOutW (clear cfg env w) w
+  | "reserve", [n] => no <| resOutW (reserve cfg env (nat! n) w) w
+  | "try_reserve", [n] => no <| resOut (Map.tryReserve cfg env (nat! n) w) fmtTre w
+  | "shrink_to", [m] => no <| resOutW (shrinkTo cfg env (nat! m) w) w
+  | "shrink_to_fit", [] => no <| resOutW (shrinkTo cfg env w.t.items w) w
+  | "retain", [] => no <| resOutW (Map.retain cfg env w) w
+  | "extract_if", [k] => no <| resOut (Map.extractIf cfg env (nat! k) w) elems w
+  | "drain", [k, fg] => no <| resOut (Map.drain cfg env (nat! k) (fg == "1") w) elems w
+  | "into_iter", [k] => no <| resOut (Map.intoIter cfg env (nat! k) w) elems w
+  | "iter", p :: _ =>
+    match Map.iterObserve cfg w.t (nat! p) with
+    | .error f => ({ ret := s!"FAULT({f})", w := w }, true, none)
+    | .ok (pre, folded, rest, hints) =>
+      ({ ret := s!"pre={fmtNats (ix pre)} fold={fmtNats (ix folded)} rest={fmtNats (ix rest)} sh={fmtNats hints}", w := w },
+       false, none)
+  | "iter_hash", [k] =>
+    match Table.iterHash cfg w.t (H (nat! k)) with
+    | .error f => ({ ret := s!"FAULT({f})", w := w }, true, none)
+    | .ok l => ({ ret := fmtNats (ix l), w := w }, false, none)
+  | "iter_hash_mut", [k] =>
+    match Table.iterHash cfg w.t (H (nat! k)) with
+    | .error f => ({ ret := s!"FAULT({f})", w := w }, true, none)
+    | .ok l => ({ ret := fmtNats (ix l), w := w }, false, none)
+  | "get_many_mut", ks =>
+    no <| resOut (Table.getManyMut cfg env false (ks.map fun k => (H (nat! k), nat! k)) w)
+      (fun l => "[" ++ String.intercalate "," (l.map (fmtOptElem ids)) ++ "]") w
+  | "get_many_mut_any", ks =>
+    no <| resOut (Table.getManyMut cfg env true (ks.map fun k => (H (nat! k), nat! k)) w)
+      (fun l => "[" ++ String.intercalate "," (l.map (fmtOptElem ids)) ++ "]") w
+  | "with_capacity", [n] =>
+    -- the old table is dropped, a new one created
+    let r : Res World := do
+      let old := w.t
+      let w1 ← dropInnerTable cfg env old { w with t := Raw.new cfg.W }
+      withCapacity cfg env (nat! n) w1
+    no <| resOutW r w
+  | "clone_to_other", [] =>
+    -- other := self.clone()  (old `other` dropped first)
+    let r : Res (Raw × World) := do
+      let w1 ← dropInnerTable cfg env other w
+      Map.cloneTable cfg env w1
+    match r with
+    | .ok (nt, w') => ({ ret := "()", w := w' }, false, some nt)
+    | .panic c w' => ({ ret := s!"panic:{c}", w := w' }, false, some (Raw.new cfg.W))
+    | .abort => ({ ret := "abort", w := w }, true, none)
+    | .fault f => ({ ret := s!"FAULT({f})", w := w }, true, none)
+  | "clone_from", [] => no <| resOutW (Table.cloneFrom cfg env other w) w
+  | "len", [] => no ({ ret := toString w.t.items, w := w }, false)
+  | "nop", [] => no ({ ret := "()", w := w }, false)
+  | _, _ => ({ ret := s!"bad-op {name}", w := w }, true, none)
 
 end Hb.Driver
